@@ -42,7 +42,10 @@ CLAIMS = {
    technique="Coq proof of the frame property over all operation lists + differential correspondence incl. storage chunk crossings",
    text="Theorems C06_* (props/C06.v): for ANY further operation list, the eight recorded series values at every time strictly before the current time never change "
         "(across the 100-step storage chunks); the clock advances by exactly one per clock step and never goes back; queries for t > now are refused and t <= now are not. "
-        "The lock-step of several markets and the session spans are checked at simulation level (suite S) by monitor.",
+        "Run level (theories/SimClock.v over the Level-S model, for every configuration with distinct market ids, every tape of runner decisions, all agent behaviour and "
+        "fundamental paths): nothing in a step but the simulator's clock update moves any market's time; the clock update moves every market (index markets included) by exactly "
+        "one; one step = one tick; a session spans exactly its configured steps and is entered where the previous one ended; an unfailed run ends with all markets at the total "
+        "number of steps. The same facts are checked on the real runner by the Level-S correspondence and a monitor written from the property text.",
    note=COMMON_NOTE),
  "C08": dict(level="proof", suites=["M"], design="5/C08",
    technique="Coq proof of the price/mid/last/counter rules per event with a storage invariant over all operation lists + differential correspondence",
